@@ -104,8 +104,8 @@ def guard_unit(n: int) -> Stats:
     except NonLinear as e:
         st.cap(f"generic-point guard refused at n={n}: {e}")
         return st
-    except Exception as e:  # noqa: BLE001
-        st.violation(f"[guard n={n}] compute_exploitability raised {type(e).__name__}: {e} on a generic game", n=n, generic=True)
+    except Exception as e:  # noqa: BLE001 - indeterminates are outside the protocol's value domain: never a violation
+        st.cap(f"generic-point guard could not run at n={n}: {type(e).__name__}: {e}")
         return st
     st.states += 1
     st.transitions += 1
@@ -179,15 +179,52 @@ def tables_unit(u) -> Stats:
     return st
 
 
+def large_unit(u) -> Stats:
+    """'Explored numerically beyond' the guard range: one structured bound vector per large player count (numpy oracle).
+    Player counts sit on both sides of the machine-word widths 8 and 16."""
+    _, n = u
+    from incomplete_cooperative.exploitability import compute_exploitability
+    st = Stats()
+    N = 1 << n
+    ids = np.arange(N)
+    size = np.zeros(N, dtype=np.int64)
+    for i in range(n):
+        size += (ids >> i) & 1
+    lo = -(size * ((ids % 3) + 1)).astype(np.float64) / 4
+    up = lo + ((ids % 5) + (ids >> (n - 1) & 1)).astype(np.float64) / 2
+    lo[0] = up[0] = 0.0
+    grand = float(n)
+    lo[N - 1] = up[N - 1] = grand
+    g = bounds_game(n, lo, up, grand)
+    binom = np.array([math.comb(n, k) for k in range(n + 1)], dtype=np.float64)
+    want = float(np.sum(((up - lo) / binom[size])[1:N - 1]))
+    try:
+        got = float(compute_exploitability(g))
+    except Exception as e:  # noqa: BLE001
+        st.violation(f"[expl n={n} large] raised {type(e).__name__}: {e}", n=n, large=True)
+        return st
+    st.states += 1
+    st.transitions += 1
+    st.evals += 1
+    st.nontrivial += 1
+    if abs(got - want) > 1e-9 * max(1.0, abs(want)):
+        st.violation(f"[expl n={n} large] compute_exploitability = {got}, but sum_S (upper-lower)/C(n,|S|) = {want} on the structured bound vector "
+                     f"lower(S) = -|S|(id%3+1)/4, upper = lower + (id%5 + [player n-1 in S])/2", n=n, large=True)
+    return st
+
+
 def dispatch(u) -> Stats:
+    if u[0] == "large":
+        return large_unit(u)
     return {"guard": lambda: guard_unit(u[1]), "basis": lambda: basis_unit(u[1]), "lat3": lambda: lattice3_unit(u),
             "tables": lambda: tables_unit(u)}[u[0]]()
 
 
 def run(run: Run) -> None:
     quick, seed = run.quick, run.seed
-    us: list = [("guard", n) for n in range(2, 8 if quick else 9)]
-    us += [("basis", n) for n in range(2, 7 if quick else 9)]
+    us: list = [("guard", n) for n in range(2, 8 if quick else 10)]
+    us += [("basis", n) for n in range(2, 7 if quick else 10)]
+    us += [("large", n) for n in ((9, 17) if quick else (9, 12, 16, 17))]
     for grand in ((2.0,) if quick else (2.0, 0.0, -1.0)):
         us += [("lat3", i, i + 256, grand) for i in range(0, 4096, 256)]
     g3 = A.a3_sa()
@@ -203,16 +240,19 @@ def run(run: Run) -> None:
                 "vectors with (l,u) in {(0,0),(0,1),(-1,1),(1,1)} per coalition and canonical tables of the real computer (n=3,4): value == weighted gap, "
                 ">= 0, == 0 iff degenerate; (iv) for each of them ALL vertex completions of the box: per-player maximum used == max over vertices of the "
                 "orderings Shapley value. non-trivial = bound vectors with a non-degenerate interval")
-    run.bounds = {"guard_n": [2, 7 if quick else 8], "basis_n": [2, 6 if quick else 8], "vertex_enumeration": "<= 10 non-degenerate intervals"}
+    run.bounds = {"guard_n": [2, 7 if quick else 9], "basis_n": [2, 6 if quick else 9], "vertex_enumeration": "<= 10 non-degenerate intervals",
+                  "numerical_beyond_n": [9, 17] if quick else [9, 12, 16, 17]}
     run.assumptions = ["a linear functional attains its maximum over a box at a vertex; linearity is established by the guard run (E5) and C06",
                        "float comparison tolerance 1e-11*scale*n"]
-    run.add(fanout(dispatch, sorted(us, key=lambda u: -({"tables": 50, "lat3": 20}.get(u[0], u[1])))))
+    run.add(fanout(dispatch, sorted(us, key=lambda u: -({"tables": 50, "lat3": 20, "large": 1000 * u[1]}.get(u[0], u[1])))))
 
 
 def replay(doc: dict):
     st = Stats()
     if doc.get("generic"):
         st = guard_unit(doc["n"])
+    elif doc.get("large"):
+        st = large_unit(("large", doc["n"]))
     else:
         check_vector(st, doc["n"], doc["lower"], doc["upper"], doc["grand"], "replay", bool(doc.get("vertices")))
     msgs = [v["message"] for v in st.violations]
